@@ -4,7 +4,8 @@
 out="${1:-/dev/shm/semverif/baseline_$$.xml}"
 mkdir -p "$(dirname "$out")"
 cd /repo || exit 2
-env -u SEMANTIVA_VERIF /venv/bin/python -m pytest -ra -q -p no:cacheprovider --timeout=900 --continue-on-collection-errors --junitxml="$out" -n 8 >/dev/shm/semverif/baseline_$$.log 2>&1
+XD=""; [ "${SVSIM_BASELINE_FAST:-0}" = 1 ] && XD="-n 8"   # default: serial, exactly the pinned command
+env -u SEMANTIVA_VERIF /venv/bin/python -m pytest -ra -q -p no:cacheprovider --timeout=900 --continue-on-collection-errors --junitxml="$out" $XD >/dev/shm/semverif/baseline_$$.log 2>&1
 /venv/bin/python - "$out" <<'PY'
 import json, sys, xml.etree.ElementTree as ET
 base = json.load(open('/root/.vp/BASELINE.json'))
